@@ -18,7 +18,17 @@ def tnode(g, bid):
 
 
 def other(lab):
+    if isinstance(lab, tuple) and lab and lab[0] in ("case", "not-case"):
+        # outcome of a switch: 'the named case' <-> 'any other case'
+        return ("not-case" if lab[0] == "case" else "case", lab[1])
     return "F" if lab == "T" else "T"
+
+
+def label_matches(edge_label, wanted):
+    """does an edge labelled edge_label belong to the outcome `wanted` ('T' / 'F' / ('case', id) / ('not-case', id))"""
+    if isinstance(wanted, tuple) and wanted and wanted[0] == "not-case":
+        return isinstance(edge_label, tuple) and edge_label and edge_label[0] == "case" and edge_label != ("case", wanted[1])
+    return edge_label == wanted
 
 
 def cpos(f, pat):
@@ -224,6 +234,20 @@ def enum_edges(g, call_pat, enum_name):
         if nc and nc[0] in ("==", "!=") and any(is_call(x, call_pat) or (held and x["k"] == "DeclRefExpr" and x.get("did") in held) for x in walk(c)) and \
                 any(x["k"] == "DeclRefExpr" and x.get("dk") == "EnumConstant" and x.get("name", "").endswith("::" + enum_name) for x in walk(c)):
             out.append((bid, "T" if nc[0] == "==" else "F"))
+    # the same tests written as a switch over the call (or the local that holds it): the outcome is the case labelled with the enumerator
+    for bid, b in g.blocks.items():
+        if b.get("term") != "SwitchStmt":
+            continue
+        c = g.term_cond(bid)
+        cs = strip(c, casts=True) if c is not None else None
+        if not (isnode(cs) and (is_call(cs, call_pat) or (held and var_ref(cs) in held))):
+            continue
+        for (_y, lab) in g.succ.get(tnode(g, bid), ()):
+            if isinstance(lab, tuple) and lab[0] == "case" and lab[1] is not None:
+                ln = f.nodes.get(lab[1])
+                if isnode(ln) and ln["k"] == "CaseStmt" and any(x["k"] == "DeclRefExpr" and x.get("dk") == "EnumConstant" and
+                                                               x.get("name", "").endswith("::" + enum_name) for x in walk(ln.get("lhs"))):
+                    out.append((bid, lab))
     return out
 
 
@@ -236,7 +260,7 @@ def never_when(g, positions, edges):
     """positions are unreachable once any of the labelled outcomes has been taken: every path to them uses only the other outcomes.
     Checked as: from the target of each labelled edge the positions are unreachable."""
     for (b, l) in edges:
-        tgt = [y for (y, lab) in g.succ.get(tnode(g, b), ()) if lab == l]
+        tgt = [y for (y, lab) in g.succ.get(tnode(g, b), ()) if label_matches(lab, l)]
         if g.exists_path(tgt, positions) or any(t in positions for t in tgt):
             return False
     return bool(edges)
